@@ -40,8 +40,16 @@ type HTTPReq struct {
 	FailWriteAfter int `json:"fail_write_after,omitempty"`
 	// BodyDelayMs > 0: the body arrives late: the first Read of the body blocks that long (a slow upload).
 	BodyDelayMs int `json:"body_delay_ms,omitempty"`
+	// BodyFailAfter > 0: the upload breaks off: reading the body fails (not EOF) after that many bytes
+	BodyFailAfter int `json:"body_fail_after,omitempty"`
 	// TLS: the request arrived over TLS (http.Request.TLS is set)
 	TLS bool `json:"tls,omitempty"`
+}
+
+type failingReader struct{}
+
+func (failingReader) Read([]byte) (int, error) {
+	return 0, errors.New("read tcp 192.0.2.1:1234: connection reset by peer")
 }
 
 type delayedBody struct {
@@ -132,6 +140,13 @@ func DoOpt(h http.Handler, r HTTPReq, o Opt) (rep Reply) {
 	}
 	req.Body = io.NopCloser(strings.NewReader(r.Body))
 	req.ContentLength = int64(len(r.Body))
+	if r.BodyFailAfter > 0 {
+		n := r.BodyFailAfter
+		if n > len(r.Body) {
+			n = len(r.Body)
+		}
+		req.Body = io.NopCloser(io.MultiReader(strings.NewReader(r.Body[:n]), failingReader{}))
+	}
 	if r.TLS {
 		req.TLS = &tls.ConnectionState{HandshakeComplete: true, Version: tls.VersionTLS13}
 	}
